@@ -488,6 +488,18 @@ namespace
 #endif
                         m[u].clear();
                         for (size_t i = 0; i < cnt; i++) m[u].push_back(val + (int)i);
+                        // a range constructor copies: the source range is what it was
+                        for (size_t i = 0; i < cnt; i++)
+                            if (!(src[i] == E(val + (int)i))) violate("C02/ctor-range-source", "after vector(first, last) over a range of %zu elements the source element %zu no longer holds its value", cnt, i);
+                        if (val % 3 == 2 && v[1 - u])
+                        {
+                            // ... also when the range is begin()/end() of another (non-const) igris::vector: that one is compared with
+                            // its reference right after this operation like after every other
+                            Vec &other = *v[1 - u];
+                            v[u].reset(new Vec(other.begin(), other.end()));
+                            m[u] = m[1 - u];
+                            probe("constructed_from_the_range_of_another_vector");
+                        }
                         break;
                     }
                     case V_CTOR_ILIST:
@@ -567,6 +579,12 @@ namespace
                 FS fs;
                 std::map<int, int> mm;
                 std::set<int> ms;
+                // maps whose key type is narrower than the arguments their callers pass (a byte key looked up with an int, a float key
+                // with a double): the argument is converted to the key type first, as in std::map
+                igris::flat_map<uint8_t, int> fm8;
+                std::map<uint8_t, int> mm8;
+                igris::flat_map<float, int> fmf;
+                std::map<float, int> mmf;
                 for (auto &o : p.ops)
                 {
                     int k = (int)mod(arg(o, 0), M_N);
@@ -626,6 +644,22 @@ namespace
                         auto ir = fm.emplace(key, val);
                         auto jr = mm.emplace(key, val);
                         if (ir.second != jr.second || ir.first->second != jr.first->second) violate("C02/flat_map-emplace", "emplace(%d,%d): inserted=%d, std::map inserted=%d", key, val, (int)ir.second, (int)jr.second);
+                        {
+                            int wide = (key & 0xFF) + 256 * (val % 3); // an int that is the byte key (key & 0xFF) once converted
+                            auto i8 = fm8.emplace(wide, val);
+                            auto j8 = mm8.emplace(wide, val);
+                            if (i8.second != j8.second || i8.first->first != j8.first->first || i8.first->second != j8.first->second || fm8.size() != mm8.size() || fm8.count((uint8_t)wide) != 1)
+                                violate("C02/flat_map-emplace", "flat_map<uint8_t,int>::emplace(%d,%d): inserted=%d key=%d size=%zu count=%zu, std::map inserted=%d key=%d size=%zu", wide, val, (int)i8.second, (int)i8.first->first,
+                                        fm8.size(), fm8.count((uint8_t)wide), (int)j8.second, (int)j8.first->first, mm8.size());
+                            double dk = key * 0.1; // not representable as a float: the stored key is the rounded value
+                            auto ifl = fmf.emplace(dk, val);
+                            auto jfl = mmf.emplace(dk, val);
+                            if (ifl.second != jfl.second || ifl.first->first != jfl.first->first || ifl.first->second != jfl.first->second || fmf.size() != mmf.size() || fmf.count((float)dk) != 1)
+                                violate("C02/flat_map-emplace", "flat_map<float,int>::emplace(%.17g,%d): inserted=%d size=%zu count=%zu, std::map inserted=%d size=%zu", dk, val, (int)ifl.second, fmf.size(), fmf.count((float)dk),
+                                        (int)jfl.second, mmf.size());
+                            if (wide > 255) probe("key_argument_wider_than_the_key_type");
+                            if (val % 7 == 0) { fm8[(uint8_t)wide] = val; mm8[(uint8_t)wide] = val; int x = fm8[wide & 0xFF], y = mm8[wide & 0xFF]; if (x != y) violate("C02/flat_map-index", "flat_map<uint8_t,int>[%d] = %d, std::map %d", wide & 0xFF, x, y); }
+                        }
                         break;
                     }
                     case M_CLEAR:
